@@ -496,7 +496,61 @@ def w_runloop(arg):
     return acc.res()
 
 
+def piece_sizes():
+    """sizes of one delivered piece worth trying on a long stream: powers of two 256 .. 65536 and their neighbours, the
+    usual TCP payload sizes, and every size the client module itself names (module constants, int literals of
+    extra/tcpclient.py from 256 up, the eight largest products of two literals below 200 000) - a client that bounds or blocks its buffer
+    has to take the bound from one of them - each also with one byte less / more and doubled."""
+    from engine.util import source_words
+    import pyModeS.extra.tcpclient as M
+    base = {1 << k for k in range(8, 17)} | {1448, 1460, 1500, 9000}
+    named = {int(v) for v in vars(M).values() if isinstance(v, (int, float)) and not isinstance(v, bool) and 64 <= v <= 200000 and v == int(v)}
+    ints = [x for x in source_words(["extra/tcpclient.py"])["ints"] if 2 <= x <= 200000]
+    named |= {x for x in ints if 256 <= x}
+    prods = sorted({a * b for a in ints for b in ints if 1000 <= a * b <= 200000} - named, reverse=True)
+    named |= set(prods[:8])
+    out = set()
+    for v in base | named:
+        out |= {v - 1, v, v + 1, 2 * v, 2 * v + 1}
+    return sorted(x for x in out if 64 <= x <= 200000)
+
+
+def w_long(arg):
+    """long streams (thousands of frames, every frame of the alphabet in rotation) delivered by the real run loop in a few
+    LARGE pieces: the whole stream at once, and pieces of every size in piece_sizes()."""
+    framer, part = arg
+    alpha, term, _, reffn = FRAMERS[framer]
+    acc = Acc()
+    acc.cov["states"] = 0
+    acc.cov["transitions"] = 0
+    core = BEAST_CORE if framer == "beast" else SKY_CORE if framer == "skysense" else sorted(alpha)
+    good = [nm for nm in core if len(reffn([b for b in alpha[nm]] + term)) == 1]
+    stream = []
+    i = 0
+    while len(stream) < 70000:
+        stream += alpha[good[i % len(good)]]
+        i += 1
+    stream += term
+    refl = reffn(stream)
+    N = len(stream)
+    sizes = [N] + piece_sizes()
+    for size in sizes[part::4]:
+        cuts = [size] * (N // size)
+        got = run_loop(framer, stream, cuts)
+        acc.n += 1
+        acc.cov["transitions"] += len(cuts) + 1
+        if isinstance(got, tuple):
+            acc.bad("%s:run_loop:exception:%s:long_stream_in_large_pieces" % (framer, got[1]), {"kind": "long", "framer": framer, "piece": size})
+        elif not delivered_ok(got, refl, N):
+            acc.bad("%s:run_loop:delivered_messages_differ_from_reference:long_stream_in_large_pieces" % framer,
+                    {"kind": "long", "framer": framer, "piece": size, "frames_in_stream": len(refl), "frames_delivered": len(got)})
+        acc.out.add(("long", framer, size))
+    return acc.res()
+
+
 def w_any(t):
+    if t[0] == "L":
+        return w_long(t[1])
     if t[0] == "r":
         return w_runloop(t[1])
     return {"s": w_streams, "n": w_ns}[t[0]](t[1])
@@ -525,6 +579,7 @@ def run(ctx):
         core = BEAST_CORE if framer == "beast" else SKY_CORE if framer == "skysense" else sorted(alpha)
         seqs = [(a,) for a in sorted(alpha)] + [(a, b) for a in core for b in core][:: (1 if ctx.thorough else 3)]
         tasks += [("r", (framer, c)) for c in chunks(seqs, 6)]
+    tasks += [("L", (framer, part)) for framer in ("beast", "raw", "skysense") for part in range(4)]
     ctx.cov["states"] = 0
     ctx.cov["transitions"] = 0
     ctx.pmap(w_any, tasks)
@@ -535,6 +590,8 @@ def run(ctx):
 
 
 def replay(case):
+    if case["kind"] == "long":
+        return [(s_, c_) for part in range(4) for s_, c_ in w_long((case["framer"], part))["viols"] if c_["piece"] == case["piece"]]
     if case["kind"] == "runloop":
         stream = list(bytes.fromhex(case["stream"]))
         got = run_loop(case["framer"], stream, case["cuts"], tuple(case.get("idle", ())), tuple(case.get("empty", ())))
